@@ -34,6 +34,7 @@ def showAtt : Att → String
     | 2 => "rRFC822.HEADER=" ++ showHex data
     | 3 => "rRFC822.TEXT=" ++ showHex data
     | _ => "b" ++ showSection s origin ++ "=" ++ showHex data
+  | .opaque s origin => "b" ++ showSection s origin ++ "=*"
 
 def showKey : StatusKey → String
   | .messages => "MESSAGES" | .uidnext => "UIDNEXT" | .uidvalidity => "UIDVALIDITY" | .unseen => "UNSEEN"
@@ -118,7 +119,7 @@ def att? (s : String) : Option Att :=
     match splitOnChar (String.ofList r) '=' with
     | [lab, d] => do
       let (sec, origin) ← section? lab
-      pure (.section sec origin (← hexStr? d))
+      if d == "*" then pure (.opaque sec origin) else pure (.section sec origin (← hexStr? d))
     | _ => none
   | _ => none
 
@@ -145,6 +146,7 @@ def item? (s : String) : Item :=
     | some 'G' => (flags? rest).map Item.flags
     | some 'P' => (flags? rest).map Item.permflags
     | some 'K' => if rest.isEmpty then some .closed else none
+    | some '!' => some (.unknown "incomplete")
     | some 'S' => (nums? rest).map Item.search
     | some 'F' =>
       match splitOnChar rest '(' with
@@ -212,7 +214,8 @@ def fetchItem? (o : FetchOpts) (s : String) : Option FetchOpts :=
   | "UID" => some o
   | "SIZE" => some { o with size := true }
   | "DATE" => some { o with date := true }
-  | "FAST" => some { o with flags := true, date := true, size := true }
+  | "FAST" | "ALL" | "FULL" => some { o with flags := true, date := true, size := true }   -- ENVELOPE / BODY of ALL / FULL: outside the model
+  | "BS" | "BD" | "ENV" => some o     -- BODYSTRUCTURE, BODY, ENVELOPE: outside the model (the harness drops them), oracle-only
   | "RFC822" => some { o with sections := o.sections ++ [{ obsolete := 1 }] }
   | "RFC822.HEADER" => some { o with sections := o.sections ++ [{ obsolete := 2, spec := .header, peek := true }] }
   | "RFC822.TEXT" => some { o with sections := o.sections ++ [{ obsolete := 3, spec := .text }] }
@@ -280,6 +283,24 @@ def op? (s : String) : Option (Nat × Cmd × Bool) :=
     pure (cid, cmd, w.head? == some "LIST")
   | [] => none
 
+/-- model vs implementation for one response: equal text, except that a section the model marks as not
+    modelled (`b<label>=*`) matches whatever bytes the implementation returned under the same label -/
+def attAgree (m ob : String) : Bool :=
+  m == ob || (m.endsWith "=*" && (splitOnChar m '=').head? == (splitOnChar ob '=').head?)
+
+def itemAgree (m ob : String) : Bool :=
+  m == ob ||
+    (m.startsWith "F" && ob.startsWith "F" &&
+      match splitOnChar m '(', splitOnChar ob '(' with
+      | [ms, ma], [os, oa] =>
+        ms == os && (let a := splitOnChar ma ','; let b := splitOnChar oa ','
+                     a.length == b.length && (a.zip b).all fun (x, y) => attAgree (x.dropEndWhile (· == ')')).toString (y.dropEndWhile (· == ')')).toString)
+      | _, _ => false)
+
+def respAgree (m ob : String) : Bool :=
+  m == ob || (let a := splitOnChar m '|'; let b := splitOnChar ob '|'
+              a.length == b.length && (a.zip b).all fun (x, y) => itemAgree x y)
+
 /-- replay the history on the model, compare every step, run the oracle on the implementation's responses -/
 def runHist (nconn : Nat) (ops : List (Nat × Cmd × Bool)) (obs : List String) : String × Bool × String :=
   let rec go (st : St) (g : MailboxSpec.G) (ops : List (Nat × Cmd × Bool)) (obs : List String) (i : Nat)
@@ -297,7 +318,7 @@ def runHist (nconn : Nat) (ops : List (Nat × Cmd × Bool)) (obs : List String) 
           match MailboxSpec.check g cid cmd (resp? ob) with
           | (g2, none) => (g2, none)
           | (g2, some e) => (g2, some s!"{e}@step{i}")
-      go st' g' ops' obs' (i + 1) (m :: acc) (agree && m == ob) orc' (dead || m == "PANIC")
+      go st' g' ops' obs' (i + 1) (m :: acc) (agree && respAgree m ob) orc' (dead || m == "PANIC")
   let (ms, agree, orc) := go (init nconn) (MailboxSpec.ginit nconn) ops obs 1 [] true none false
   (joinWith ";" ms, agree, match orc with | none => "ok" | some e => "fail:" ++ e)
 
